@@ -5,7 +5,11 @@ import checklib as C
 import instgen
 
 MODULE = "Rspirv.Props.C02"
-THEOREMS = []
+P = "Rspirv.Props.C02."
+THEOREMS = [P + n for n in ("packStr_bytes", "str_enc", "elem_enc", "elems_enc", "operand_enc", "literal_enc", "many_enc",
+                            "nested_enc", "specOp_enc", "one_enc", "loop_enc", "leadOk_of_resultsLead", "first_word",
+                            "C02_spec", "C02_first_word", "sview_of_words", "good_tables", "C02")] + \
+           ["Rspirv.Props.ParserSpec.parseInst_ref", "Rspirv.Props.ParserSpec.loop_ref"]
 NEEDS = ("header", "core", "decode", "operand_enum", "asm_arms", "parse_operand", "operands")
 
 
@@ -64,7 +68,7 @@ def run(ctx):
         T, fails = C.translate_all(ctx)
         hok, herr = C.build_harness(ctx, bins=("impl",))
         have = C.need(ctx, *NEEDS)
-        failing = C.prove(ctx, MODULE, THEOREMS, extra_targets=["driver"], files=["Rspirv/Props/C02.lean"]) if have else []
+        failing = C.prove(ctx, MODULE, THEOREMS, extra_targets=["driver"], files=["Rspirv/Props/C02.lean", "Rspirv/Props/ParserSpec.lean", "Rspirv/Model/Spec.lean", "Rspirv/Model/Assemble.lean", "Rspirv/Model/Parser.lean"]) if have else []
     for n, e in failing:
         ctx.issue(f"theorem:{n}", f"Lean obligation no longer checks: {e['msg'][:300]}", witness=e)
     if not hok:
